@@ -53,6 +53,37 @@ CLAIMS = {
      note='Operands small; overflowing operands are left to C01.'),
 }
 
+TECH_M = ('explicit TLA+ abstract machine (FPyMachine) run by TLC on the real ASTs exported as data; conformance by judging '
+          'recorded real-interpreter outcomes against the machine in the same TLC run')
+
+CLAIMS.update({
+ 'C04': dict(engine='FPyMachine', technique=TECH_M, text=(
+     'spec/FPyMachine.tla is a small-step reference semantics of FPy written from the language reference (one action per statement '
+     'rule, call frames, store of list cells, active-context stack; rounded operators are Round(ctx, Exact(op))). Generated programs '
+     '(source text -> real @fpy front end -> real AST -> JSON) are run by TLC for every recorded argument vector and caller context; '
+     'the Judge action compares the machine outcome with what the real interpreter returned (value incl. sign of zero / NaN / lists / '
+     'tuples, or an error), and the machine invariants CtxDiscipline and StoreGrowsOnly are checked on every transition.'),
+     note='Values bounded (numerator/denominator < 2^15, else the run is skipped and counted); binary64 as default context only on '
+          'exactly representable results; wide Python values travel as opaque tokens; calls inside conditionals/comprehensions unsupported.'),
+ 'C07': dict(engine='Equiv', technique=TECH_M, text=(
+     'spec/Equiv.tla runs the machine on the original program, then on the AST the real ConstFold / CopyPropagate / DeadCodeEliminate '
+     'passes (alone, ordered pairs, simplify under enable_* combinations) produced, and requires the same outcome on every input on '
+     'which the original returns, both for the machine on the transformed AST and for the recorded result of the real transformed '
+     'Function. Transforms run under a wall-clock guard; non-termination is reported.'),
+     note='Same bounds as C04. Configurations whose output is textually identical to the input or to another configuration are not re-run.'),
+ 'C08': dict(engine='Equiv', technique=TECH_M, text=(
+     'As C07 with unroll_for (1-3, PEEL and STRICT), unroll_while, split (2-3, PEEL/STRICT), elim_iter, fuse and compositions on '
+     'loop-heavy programs (bodies that reassign outer variables, mutate the iterated list, return early, nest loops), every list '
+     'length 0..7 and low-precision caller contexts.'),
+     note='STRICT is judged only where its divisibility precondition holds (an AssertionError of the guard is a skipped input). '
+          'Known finding: elim_iter over a source list the body mutates.'),
+ 'C09': dict(engine='Equiv', technique=TECH_M, text=(
+     'As C07 with inline (all sites, one site, one level), monomorphize under pinned caller contexts (the original evaluated with '
+     'that context), close, lift_context and compositions on caller/callee programs: callees with and without their own context, '
+     'called inside nested with-blocks and loops, mutating list arguments, clashing local names, calls in expression position.'),
+     note='Known finding: inline hoists the callee body before the whole statement (evaluation order of an earlier list read).'),
+})
+
 ENGINES = [
  ('Num', 'spec/Num.tla', ['C01', 'C02', 'C05', 'C16', 'C17'], 'exact rational / special-value numbers'),
  ('Rounding', 'spec/Rounding.tla', ['C01', 'C02', 'C16', 'C17'], 'context families, core formats, rounding function, expectations'),
@@ -62,6 +93,9 @@ ENGINES = [
  ('NumberOps', 'spec/NumberOps.tla', ['C05'], 'denotational statement of the number types'),
  ('Encoding', 'spec/Encoding.tla', ['C16'], 'bit layouts and ordinal relations'),
  ('Stochastic', 'spec/Stochastic.tla', ['C17'], 'stochastic rounding count law'),
+ ('FPyMachine', 'spec/FPyMachine.tla', ['C04', 'C07', 'C08', 'C09'], 'small-step abstract machine for FPy programs (real ASTs as data)'),
+ ('MCMachine', 'spec/MCMachine.tla', ['C04'], 'machine runs judged against recorded interpreter outcomes; machine invariants'),
+ ('Equiv', 'spec/Equiv.tla', ['C07', 'C08', 'C09'], 'two-phase machine: original vs transformed program'),
 ]
 
 
